@@ -428,8 +428,12 @@ protected:
             boost::numeric::interval_lib::checking_base<float>>>;
     I i;
 
+    // The transcendental functions call libm under directed rounding, which
+    // can leave the bounds of a (nearly) degenerate interval inverted by an
+    // ulp; arithmetic on an inverted interval then produces NaN bounds.
     Interval(const I& i, bool maybe_nan)
-        : i(i), maybe_nan(maybe_nan)
+        : i((i.lower() > i.upper()) ? I(i.upper(), i.lower()) : i),
+          maybe_nan(maybe_nan)
     {
         // Nothing to do here
     }
